@@ -309,12 +309,16 @@ fn cmd_run(args: &[String]) -> i32 {
     }
     let mut fps: BTreeSet<u64> = BTreeSet::new();
     let mut seen_sigs: BTreeSet<String> = BTreeSet::new();
+    let mut grid_cells: BTreeSet<u64> = BTreeSet::new();
     let mut i = shard;
     'outer: while i < scenarios {
         let sseed = profiles::scenario_seed(&prop, seed, i);
         let (family, sc) = profiles::scenario(&prop, &tier, sseed, i);
         st.scenarios += 1;
         *st.families.entry(family.to_string()).or_insert(0) += 1;
+        if family == "lifecycle-grid" {
+            grid_cells.insert(i % 216);
+        }
         for j in 0..scheds {
             let cfg = gen::gen_sched(mix(mix(seed, i), 1000 + j));
             let jd = judge(&prop, &sc, &cfg);
@@ -379,6 +383,33 @@ fn cmd_run(args: &[String]) -> i32 {
     }
     st.wall_s = t0.elapsed().as_secs_f64();
     st.extra.insert("distinct_fps".into(), serde_json::json!(fps.iter().map(|x| format!("{x:016x}")).collect::<Vec<_>>()));
+    if prop == "C04" || prop == "C05" {
+        st.extra.insert("grid_cells".into(), serde_json::json!(grid_cells.iter().collect::<Vec<_>>()));
+    }
+    if prop == "C12" && shard == 0 {
+        // run index -> (base = index / 64, point = (index % 64) mod #points): per base scenario, how many
+        // of its crash points does this budget execute? (computed once, by shard 0, for the whole range)
+        let per = families::CRASH_POINTS_PER_BASE;
+        let (mut bases, mut complete, mut executed, mut existing) = (0u64, 0u64, 0u64, 0u64);
+        let mut b = 0;
+        while b * per < scenarios {
+            let first = b * per;
+            let slots = (scenarios - first).min(per);
+            let (_, _, n) = families::crash_point_scenario(profiles::scenario_seed(&prop, seed, first), first);
+            let n = n as u64;
+            bases += 1;
+            existing += n;
+            executed += slots.min(n);
+            if slots >= n {
+                complete += 1;
+            }
+            b += 1;
+        }
+        st.extra.insert("crash_point_bases".into(), serde_json::json!(bases));
+        st.extra.insert("crash_point_bases_enumerated_completely".into(), serde_json::json!(complete));
+        st.extra.insert("crash_points_executed".into(), serde_json::json!(executed));
+        st.extra.insert("crash_points_existing_in_those_bases".into(), serde_json::json!(existing));
+    }
     std::fs::write(&out, serde_json::to_string(&st).unwrap()).expect("write stats");
     if st.violations.is_empty() {
         0
